@@ -347,3 +347,18 @@ Definition judge_out_world (l : list orec) : list (N * N * N) :=
            ++ dup_records [] l in
   v ++ (if Bool.eqb (P_out l) (negb (existsb (fun t => N.eqb (snd (fst t)) 6 || N.eqb (snd (fst t)) 7) v))
         then [] else [(match l with r :: _ => r_id r | [] => 0%N end, 6%N, 999999%N)]).
+
+(* what the client of the server saw of a call whose request met the fate f at the backend (hello, room
+   join: the client is answered or told about the error): as model/OutReq.v says - every fate but an
+   answer is an error for the caller.  ok = the client was answered as if the backend had answered. *)
+Definition fate_model_ok (f : fate) (ok : bool) : bool :=
+  match snd (deliver (SSent (EmptyString, EmptyString)) f) with
+  | OResponse => ok
+  | OError => negb ok
+  end.
+(* fates in cases files: 1 connection closed without a response byte, 2 closed in the middle of the
+   response, 3 answered 500, 4 no answer within the timeout of the call, else answered *)
+Definition fate_of (n : N) : fate :=
+  match n with 1%N => FClosed | 2%N => FCut | 3%N => FStatus500 | 4%N => FSilent | _ => FAnswered end.
+Definition judge_fates (l : list (N * fate * bool)) : list (N * N * N) :=
+  flat_map (fun t => if fate_model_ok (snd (fst t)) (snd t) then [] else [(fst (fst t), 5%N, 1%N)]) l.
